@@ -25,10 +25,40 @@ type Prov struct {
 	// slices / pointers in it). Writing the object itself is not a write to the
 	// global; handing it out makes the global's memory reachable from it.
 	Holds map[*ssa.Global]bool
+	// DeepVia: for a Deep bit i, the fields of parameter i's pointee struct
+	// through which the memory was reached (first load). -1 / empty: unknown.
+	DeepVia map[int]map[int]bool
 }
 
 func (p *Prov) merge(q Prov) bool {
 	ch := false
+	for i, fs := range q.DeepVia {
+		for f := range fs {
+			if !p.DeepVia[i][f] {
+				if p.DeepVia == nil {
+					p.DeepVia = map[int]map[int]bool{}
+				}
+				if p.DeepVia[i] == nil {
+					p.DeepVia[i] = map[int]bool{}
+				}
+				p.DeepVia[i][f] = true
+				ch = true
+			}
+		}
+	}
+	// a deep bit arriving without field information is reached through unknown fields
+	for i := 0; i < 64; i++ {
+		if q.Deep&(1<<uint(i)) != 0 && len(q.DeepVia[i]) == 0 && !p.DeepVia[i][-1] {
+			if p.DeepVia == nil {
+				p.DeepVia = map[int]map[int]bool{}
+			}
+			if p.DeepVia[i] == nil {
+				p.DeepVia[i] = map[int]bool{}
+			}
+			p.DeepVia[i][-1] = true
+			ch = true
+		}
+	}
 	if p.Params|q.Params != p.Params {
 		p.Params |= q.Params
 		ch = true
@@ -145,6 +175,11 @@ type Effects struct {
 	Fn              *ssa.Function
 	WritesParam     []bool
 	WritesParamDeep []bool // the write goes through a pointer loaded from the parameter's memory
+	// WritesParamShallow: the parameter's immediate pointee (its own fields /
+	// elements) is written. DeepFields: the fields of the parameter's pointee
+	// struct through which deep writes go (-1: unknown).
+	WritesParamShallow []bool
+	DeepFields         []map[int]bool
 	WritesGlobals   map[*ssa.Global]bool
 	WritesUnknown   bool
 	Sites           []WriteSite // direct write sites in this function (non-local targets)
@@ -260,7 +295,7 @@ func (w *World) Effects() map[*ssa.Function]*Effects {
 
 func newEffects(fn *ssa.Function) *Effects {
 	n := len(fn.Params) + len(fn.FreeVars)
-	return &Effects{Fn: fn, WritesParam: make([]bool, n), WritesParamDeep: make([]bool, n), WritesGlobals: map[*ssa.Global]bool{},
+	return &Effects{Fn: fn, WritesParam: make([]bool, n), WritesParamDeep: make([]bool, n), WritesParamShallow: make([]bool, n), DeepFields: make([]map[int]bool, n), WritesGlobals: map[*ssa.Global]bool{},
 		FieldReads: map[string]bool{}, GlobalReads: map[*ssa.Global]bool{}, RetProv: make([]Prov, fn.Signature.Results().Len()),
 		Unmodelled: map[string]bool{}, Calls: map[string]bool{}}
 }
@@ -288,6 +323,19 @@ func paramIndex(fn *ssa.Function, p *ssa.Parameter) int {
 		}
 	}
 	return -1
+}
+
+// ShallowWritesOracle: per parameter, whether the function (or a callee) may
+// write the parameter's immediate pointee; nil when unknown.
+func (w *World) ShallowWritesOracle() func(fn *ssa.Function) []bool {
+	sum := w.Effects()
+	return func(fn *ssa.Function) []bool {
+		ef := sum[fn]
+		if ef == nil || ef.WritesUnknown {
+			return nil
+		}
+		return ef.WritesParamShallow
+	}
 }
 
 // EffectsOracle adapts the summaries for the path engine.
@@ -416,6 +464,25 @@ func (a *effectsAnalysis) write(ef *Effects, p Prov, site WriteSite) {
 		if p.Deep&(1<<uint(i)) != 0 && !ef.WritesParamDeep[i] {
 			ef.WritesParamDeep[i] = true
 			a.changed = true
+		}
+		if p.Params&(1<<uint(i)) != 0 && p.Deep&(1<<uint(i)) == 0 && !ef.WritesParamShallow[i] {
+			ef.WritesParamShallow[i] = true
+			a.changed = true
+		}
+		if p.Deep&(1<<uint(i)) != 0 {
+			fs := p.DeepVia[i]
+			if len(fs) == 0 {
+				fs = map[int]bool{-1: true}
+			}
+			for f := range fs {
+				if !ef.DeepFields[i][f] {
+					if ef.DeepFields[i] == nil {
+						ef.DeepFields[i] = map[int]bool{}
+					}
+					ef.DeepFields[i][f] = true
+					a.changed = true
+				}
+			}
 		}
 	}
 	for g := range p.Globals {
@@ -631,13 +698,43 @@ func (a *effectsAnalysis) update(fn *ssa.Function, v ssa.Value) bool {
 			return a.set(v, a.get(x.X))
 		}
 		// load
+		if fa, ok := x.X.(*ssa.FieldAddr); ok {
+			if al, ok := fa.X.(*ssa.Alloc); ok {
+				// a field of a local struct: what was stored into that field
+				p := Prov{}
+				a.allocFieldContents(al, fa.Field, &p)
+				return a.set(v, p.deepen())
+			}
+		}
 		if al, ok := addrRootAlloc(x.X); ok {
 			// contents of a local/heap allocation made here: union of stored values
 			p := Prov{}
 			a.allocContents(al, &p, map[ssa.Value]bool{})
 			return a.set(v, p.deepen())
 		}
-		return a.set(v, a.get(x.X).deepen())
+		src := a.get(x.X)
+		res := src.deepen()
+		// first-level loads: remember through which field of the parameter's
+		// pointee the deeper memory is reached
+		first := src.Params &^ src.Deep
+		if first != 0 {
+			res.DeepVia = map[int]map[int]bool{}
+			for i, fs := range src.DeepVia {
+				res.DeepVia[i] = fs
+			}
+			f := -1
+			if fa, ok := x.X.(*ssa.FieldAddr); ok {
+				if bp := a.get(fa.X); bp.Params&^bp.Deep == first && bp.Deep == 0 {
+					f = fa.Field
+				}
+			}
+			for i := 0; i < 64; i++ {
+				if first&(1<<uint(i)) != 0 {
+					res.DeepVia[i] = map[int]bool{f: true}
+				}
+			}
+		}
+		return a.set(v, res)
 	case *ssa.Call:
 		if x.Call.Signature().Results().Len() == 1 {
 			return a.set(v, a.callResultProv(x, 0))
@@ -689,6 +786,54 @@ func (a *effectsAnalysis) allocContents(root ssa.Value, p *Prov, seen map[ssa.Va
 		case *ssa.MakeInterface:
 			if y.X == root {
 				a.allocContents(y, p, seen)
+			}
+		}
+	}
+}
+
+// allocFieldContents: what field f of the local struct al may hold: values
+// stored to that field, whole-struct stores, and what a callee handed the
+// struct's address may have stored — unless its summary shows that it does not
+// write the struct's own fields.
+func (a *effectsAnalysis) allocFieldContents(al *ssa.Alloc, f int, p *Prov) {
+	refs := al.Referrers()
+	if refs == nil {
+		return
+	}
+	for _, r := range *refs {
+		switch y := r.(type) {
+		case *ssa.Store:
+			if y.Addr == ssa.Value(al) {
+				p.merge(a.get(y.Val))
+			}
+		case *ssa.FieldAddr:
+			if y.X == ssa.Value(al) && y.Field == f {
+				a.allocContents(y, p, map[ssa.Value]bool{})
+			}
+		case ssa.CallInstruction:
+			c := y.Common()
+			full := a.fullArgs(c)
+			for i, arg := range full {
+				if arg != ssa.Value(al) {
+					continue
+				}
+				shallow := true
+				if callees := a.w.Callees(y); len(callees) > 0 {
+					shallow = false
+					for _, cf := range callees {
+						cs := a.sum[cf]
+						if cs == nil || i >= len(cs.WritesParamShallow) || cs.WritesParamShallow[i] || cs.WritesUnknown {
+							shallow = true
+						}
+					}
+				}
+				if shallow {
+					p.merge(a.calleeMayStore(y))
+				}
+			}
+		case *ssa.MakeInterface:
+			if y.X == ssa.Value(al) {
+				a.allocContents(y, p, map[ssa.Value]bool{})
 			}
 		}
 	}
@@ -934,8 +1079,32 @@ func (a *effectsAnalysis) callEffects(fn *ssa.Function, ef *Effects, site ssa.Ca
 					continue // the callee writes only the caller's local variable itself
 				}
 				p := a.argPointeeProv(full[i])
+				if al, isAl := stripIface(full[i]).(*ssa.Alloc); isAl && deep && i < len(sum.DeepFields) && len(sum.DeepFields[i]) > 0 && !sum.DeepFields[i][-1] {
+					// the callee writes only what it reaches through these fields
+					// of the caller's local struct
+					p = Prov{Fresh: true}
+					for fld := range sum.DeepFields[i] {
+						a.allocFieldContents(al, fld, &p)
+					}
+				}
 				if deep {
+					first := p.Params &^ p.Deep
 					p = p.deepen()
+					// the callee reaches what it writes through known fields of its
+					// parameter's struct: the same fields of ours, when the argument
+					// is our own parameter handed on
+					if first != 0 && i < len(sum.DeepFields) && len(sum.DeepFields[i]) > 0 && !sum.DeepFields[i][-1] {
+						via := map[int]map[int]bool{}
+						for j, fs := range p.DeepVia {
+							via[j] = fs
+						}
+						for j := 0; j < 64; j++ {
+							if first&(1<<uint(j)) != 0 {
+								via[j] = sum.DeepFields[i]
+							}
+						}
+						p.DeepVia = via
+					}
 				}
 				a.write(ef, p, WriteSite{Instr: site, What: "call " + f.String(), Prov: p})
 			}
